@@ -13,6 +13,9 @@
 (*   end of file -> Stack.Pop;  JSIGHT with a non-empty stack -> error                     *)
 (*   Push refuses when the name of the INCLUDING file is already suspended: a cycle is    *)
 (*   noticed one level late (the file is read and scanned a second time first).           *)
+(* A written name is the value of the parameter, i.e. what is left after the quotes and   *)
+(* escapes of a quoted spelling are removed (JSightText!Unescape; finding F-49): the       *)
+(* replay spells every second INCLUDE in double quotes.                                    *)
 (* Meaning layer: Flat = textual inlining, with a cycle refused on entry.                 *)
 (* Checked in every reachable state: the machine accepts exactly the projects whose       *)
 (* inlining exists and has no duplicate declaration, and then emits the declarations in   *)
